@@ -316,26 +316,30 @@ def generate(rng, tier):
                 yield Case(line, real, sig, fail, inp)
     # inbound PDUs meeting a correlator that holds state: segmented and plain messages were submitted and accepted
     # (ids id1, id2, ...), then receipts arrive for their segments in any order, twice, for unknown ids, between other PDUs
-    for bi in range(12 if thorough else 4):
+    for bi in range(18 if thorough else 6):
         default = rng.choice(('gsm0338', 'gsm0338', 'ucs2'))
-        nsegs = [rng.choice((1, 2, 2, 3)) for _ in range(rng.randrange(1, 4))]
+        nsegs = [rng.choice((2, 3))] + [rng.choice((1, 2, 2, 3)) for _ in range(rng.randrange(0, 3))]     # one segmented message at least
         texts = ['hello' if n == 1 else 'x' * (254 * (n - 1) + 20) for n in nsegs]
         total = sum(nsegs)
         ids = ['id%d' % (i + 1) for i in range(total)]
         order = ids[:] + [rng.choice(ids), 'nosuchid']
         rng.shuffle(order)
+        order.remove('id1')
+        order.insert(0, 'id1')          # a segment of the segmented message first (its receipt gets the word-valued error code)
         items = []
         for k, mid in enumerate(order):
             err = rng.choice((0, 0, 0, 17))
             how = rng.randrange(3)
             text = 'id:%s sub:001 dlvrd:001 submit date:2501011200 done date:2501011201 stat:DELIVRD err:%03d text:x' % (mid, err)
-            if rng.random() < 0.3:
+            if k == 0 or rng.random() < 0.4:
                 # a receipt for a known id whose other fields are not what the format prescribes (vendor codes, empty or
                 # missing fields): whatever the parser makes of them meets a correlator that knows the id
-                bad = rng.choice(('err:E42', 'err:', 'err:-1', 'err:1_0', 'sub:abc', 'dlvrd:', 'submit date:25010112',
+                bad = rng.choice(('err:E42', 'err:ABC', 'err:N/A', 'err:E42', 'err:', 'err:-1', 'err:1_0', 'sub:abc', 'dlvrd:', 'submit date:25010112',
                                   'done date:9913011201', 'stat:', 'err:0x11', 'err:' + '9' * 40,
                                   'submit date:2301', 'done date:23', 'done date:230101123', 'submit date:2301011231000000',
                                   'done date:23010112310000001', 'submit date:', 'done date:250101120159'))
+                if k == 0:
+                    bad = rng.choice(('err:ABC', 'err:E42', 'err:N/A'))       # (the first receipt of every batch: a word for the error code)
                 key = bad.split(':')[0]
                 parts = text.split(' text:')[0]
                 import re as _re
@@ -352,8 +356,9 @@ def generate(rng, tier):
                 items.extend(gen_pdus(rng, 1))
         # in some batches days pass in the middle: what the delivery stores hold (ids of accepted segments, the first part of
         # an inbound concatenated message) outlives its time-to-live and is swept by the next PDU that touches the correlator
-        age = 3 * 86400.0 + 5.0 if bi % 2 else 0.0
-        age_at = rng.randrange(len(items))
+        # (in every third batch, and late in the batch: the receipts before the pause meet the ids while they are known)
+        age = 3 * 86400.0 + 5.0 if bi % 3 == 2 else 0.0
+        age_at = rng.randrange(max(1, (2 * len(items)) // 3), len(items) + 1)
         if age:
             first_part = b'\x00' * 7 + b'\x40' + b'\x00' * 6 + b'\x00\x00' + b'\x08' + b'\x05\x00\x03\x4d\x02\x01ab'
             items.insert(age_at, (pdu(5, 0, 0x8fff, first_part), 'first-part-before-the-pause'))
